@@ -3,6 +3,7 @@ import Passage.Listener
 import Passage.Extracted.Listener
 import Passage.Conn.ByteLevel
 import Passage.Proxy
+import Passage.NetText
 /-
   line handlers for the listener layer (C14–C17).  Every answer is computed from the structure
   facts re-extracted from the source on this run (`Passage.Extracted.listener`): without facts the
@@ -59,7 +60,13 @@ def lookupB {α} (k : Bytes) : List (Bytes × α) → Option α
 
 /-- the header class of a first segment, computed by the PROXY parser model; `none` = the parser still waits -/
 def classify (C : Proxy.Cfg) (ip4 ip6 : List (Bytes × Option Bytes)) (ids : List (Bytes × Nat)) (first : Bytes) : Option Header :=
-  match Proxy.parse C (fun t => (lookupB t ip4).join) (fun t => (lookupB t ip6).join) first with
+  -- IPv4 source texts are decided by the model's own `Ipv4Addr::from_str` (NetText); a recorded std verdict that
+  -- differs from it poisons the address (five bytes, in no identity table), which shows up as a disagreement
+  let v4 : Bytes → Option Bytes := fun t =>
+    match lookupB t ip4 with
+    | some r => if r = NetText.parseV4Octets t then r else some [222, 173, 190, 239, 0]
+    | none => NetText.parseV4Octets t
+  match Proxy.parse C v4 (fun t => (lookupB t ip6).join) first with
   | .tooShort => none
   | .invalid => some .invalid
   | .ok none _ => some .noAddress
